@@ -52,7 +52,7 @@ Record case09 := {
   go_limit  : nat;                   (* GetRateLimit() *)
   wins      : list win;
   cancels   : list (rid * bool);     (* cancel of a waiter while the gate stays full: render, caller returned
-                                        within the bound (500 ms) *)
+                                        within the bound (2 s) *)
   commanded : list (rid * outcome);  (* the way out each render was told to take (missing template: o_not_found) *)
   refill_ok : bool;                  (* at the quiescent end [cfg] fresh renders were inside together *)
 }.
@@ -97,7 +97,7 @@ Definition ok_cancels (c : case09) : bool :=
           (cancels c).
 
 (* contexts ([over] = the renders whose context is known to be over, cumulative):
-   promptly  - when a window closes (the driver has then waited up to 500 ms for it)
+   promptly  - when a window closes (the driver has then waited up to 2 s for it)
                no render whose context is over is still waiting: it has its error
                or, where a slot was free, is inside;
    only then - the context error is given only to a render whose context is over *)
